@@ -1292,7 +1292,27 @@ def replay_sockstream(case):
     return {"reproduced": bool(failed), "failed": failed, "detail": "; ".join(failed)[:400] or "ok"}
 
 
-REPLAYERS = {'sockstream': replay_sockstream, 'sockpair': replay_sockpair, 'definition': replay_definition, 'length': replay_length, 'siblings': replay_siblings, 'options': replay_options, 'names': replay_names, 'setattr': replay_setattr, 'tables': replay_tables, 'threads': replay_threads, 'chunked': replay_chunked, 'sockread': replay_sockread, 'parseseq': replay_parseseq, 'roundtrip': replay_roundtrip, 'labelopt': replay_labelopt, 'crcseq': replay_crcseq, 'crc': replay_crc, 'construct': replay_construct, 'stream': replay_stream, 'socket': replay_stream, 'parse': replay_parse}
+def replay_crcpattern(case):
+    """a valid frame XOR the error pattern must be rejected by the static parser with validation on"""
+    from pyrtcm.rtcmreader import RTCMReader
+    e = bytes.fromhex(case['error'])
+    n = len(e)
+    body = b"\xd3" + (n - 6).to_bytes(2, "big") + bytes((i * 7 + 3) & 0xFF for i in range(n - 6))
+    frame = body + crc24q_ref(body).to_bytes(3, "big")
+    bad = bytes(a ^ b for a, b in zip(frame, e))
+    failed = []
+    if any(e[:3]):
+        return {"reproduced": None, "detail": "pattern touches the header"}
+    try:
+        RTCMReader.parse(bad, validate=1)
+        failed.append("damaged frame accepted by parse(validate=1)")
+    except Exception as ex:  # noqa
+        if type(ex).__name__ != "RTCMParseError":
+            failed.append(f"rejected with {type(ex).__name__} instead of a parse error")
+    return {"reproduced": bool(failed), "failed": failed, "detail": "; ".join(failed) or "ok"}
+
+
+REPLAYERS = {'crcpattern': replay_crcpattern, 'sockstream': replay_sockstream, 'sockpair': replay_sockpair, 'definition': replay_definition, 'length': replay_length, 'siblings': replay_siblings, 'options': replay_options, 'names': replay_names, 'setattr': replay_setattr, 'tables': replay_tables, 'threads': replay_threads, 'chunked': replay_chunked, 'sockread': replay_sockread, 'parseseq': replay_parseseq, 'roundtrip': replay_roundtrip, 'labelopt': replay_labelopt, 'crcseq': replay_crcseq, 'crc': replay_crc, 'construct': replay_construct, 'stream': replay_stream, 'socket': replay_stream, 'parse': replay_parse}
 
 
 def replay(case):
